@@ -27,6 +27,7 @@ func init() {
 			"R15.3: a message without destination is broadcast to the group's members (minus the sender only under noecho), one with a destination is written to exactly g.GetClient(dest); only broadcast chat enters the history. " +
 			"R15.4 (proof): len(g.history) <= 50 is an inductive invariant of every writer of Group.history. " +
 			"R15.5: ClearChatHistory has the three modes (everything, one user's messages, one message of a user). " +
+			"R15.7: what GetChatHistory returns is a private copy (make+copy, append to an empty slice, slices.Clone), never a slice that shares the group's array: the replay iterates over it outside the lock while clearchat compacts that array in place. " +
 			"R15.6: GetChatHistory ages the history against maxHistoryAge(description) before any other read of it; the aging function compares each entry's age with the bound it is given.",
 		NotDecided: []string{
 			"replay order on join relative to concurrent chat",
@@ -37,6 +38,7 @@ func init() {
 }
 
 func runC15(c *Ctx) {
+	defer runC15Private(c)
 	defer runC15Aging(c)
 	p := c.P
 	c.Rule("R15.1", "E3", "client-supplied source/username never flow out while they differ from the sender's identity; spoofing returns a ProtocolError", 8)
@@ -773,4 +775,152 @@ func runC15Aging(c *Ctx) {
 		return true
 	})
 	c.Check(okCmp, "R15.6", "discardObsoleteHistory compares each entry's age with the bound it is given", dh.Pos(), "time.Since(h[i].Time) against the duration parameter", "the age of an entry is not compared with the configured bound")
+}
+
+// R15.7: the replay on join iterates over what GetChatHistory returned after
+// the group lock is released, while ClearChatHistory and AddToChatHistory
+// shift entries inside the group's array.  Every value GetChatHistory returns
+// must be freshly allocated in the function.
+func runC15Private(c *Ctx) {
+	p := c.P
+	c.Rule("R15.7", "E4", "the history handed out is a private copy", 1)
+	gh := p.Func("group", "Group", "GetChatHistory")
+	if gh == nil {
+		c.Unknown("R15.7", "anchors", 0, "GetChatHistory not found")
+		return
+	}
+	info := gh.Pkg.TypesInfo
+	// all definitions of a local
+	defs := map[types.Object][]ast.Expr{}
+	unknownDef := map[types.Object]bool{}
+	ast.Inspect(gh.Body(), func(n ast.Node) bool {
+		switch x := n.(type) {
+		case *ast.AssignStmt:
+			for i, l := range x.Lhs {
+				id, ok := unparen(l).(*ast.Ident)
+				if !ok || id.Name == "_" {
+					continue
+				}
+				o := info.ObjectOf(id)
+				if o == nil {
+					continue
+				}
+				if len(x.Rhs) != len(x.Lhs) {
+					unknownDef[o] = true
+					continue
+				}
+				defs[o] = append(defs[o], x.Rhs[i])
+			}
+		case *ast.ValueSpec:
+			for i, nm := range x.Names {
+				o := info.ObjectOf(nm)
+				if len(x.Values) == len(x.Names) {
+					defs[o] = append(defs[o], x.Values[i])
+				} else if len(x.Values) != 0 {
+					unknownDef[o] = true
+				}
+			}
+		case *ast.UnaryExpr:
+			if x.Op == token.AND {
+				if id, ok := unparen(x.X).(*ast.Ident); ok {
+					unknownDef[info.ObjectOf(id)] = true
+				}
+			}
+		}
+		return true
+	})
+	var fresh func(e ast.Expr, seen map[types.Object]bool) bool
+	fresh = func(e ast.Expr, seen map[types.Object]bool) bool {
+		e = unparen(e)
+		if tv, ok := info.Types[e]; ok && tv.IsNil() {
+			return true
+		}
+		switch x := e.(type) {
+		case *ast.CompositeLit:
+			return true
+		case *ast.CallExpr:
+			if tv, ok := info.Types[x.Fun]; ok && tv.IsType() && len(x.Args) == 1 {
+				return fresh(x.Args[0], seen) // conversion
+			}
+			if id, ok := unparen(x.Fun).(*ast.Ident); ok {
+				if b, isB := info.Uses[id].(*types.Builtin); isB {
+					switch b.Name() {
+					case "make":
+						return true
+					case "append":
+						return len(x.Args) > 0 && fresh(x.Args[0], seen)
+					}
+				}
+			}
+			if f := calleeOf(&CallSite{Call: x, In: gh}); f != nil && f.Pkg() != nil && f.Pkg().Path() == "slices" && f.Name() == "Clone" {
+				return true
+			}
+			return false
+		case *ast.Ident:
+			o := info.ObjectOf(x)
+			v, isVar := o.(*types.Var)
+			if !isVar || v.IsField() || v.Parent() == nil || v.Parent() == gh.Pkg.Types.Scope() || unknownDef[o] || seen[o] {
+				return false
+			}
+			ds := defs[o]
+			if len(ds) == 0 {
+				// declared without a value (nil slice) - or a parameter
+				for _, po := range gh.params(info) {
+					if po == o {
+						return false
+					}
+				}
+				return true
+			}
+			seen[o] = true
+			defer delete(seen, o)
+			for _, d := range ds {
+				if !fresh(d, seen) {
+					return false
+				}
+			}
+			return true
+		case *ast.SliceExpr:
+			return fresh(x.X, seen)
+		}
+		return false
+	}
+	nret := 0
+	ok := true
+	var bad token.Pos
+	ast.Inspect(gh.Body(), func(n ast.Node) bool {
+		if _, isLit := n.(*ast.FuncLit); isLit {
+			return false
+		}
+		rs, isR := n.(*ast.ReturnStmt)
+		if !isR {
+			return true
+		}
+		nret++
+		if len(rs.Results) == 0 {
+			// named result
+			if gh.Decl.Type.Results != nil {
+				for _, fld := range gh.Decl.Type.Results.List {
+					for _, nm := range fld.Names {
+						if !fresh(nm, map[types.Object]bool{}) {
+							ok, bad = false, rs.Pos()
+						}
+					}
+				}
+			}
+			return true
+		}
+		for _, r := range rs.Results {
+			if !fresh(r, map[types.Object]bool{}) {
+				ok, bad = false, rs.Pos()
+			}
+		}
+		return true
+	})
+	pos := gh.Pos()
+	if bad.IsValid() {
+		pos = bad
+	}
+	c.Check(ok && nret > 0, "R15.7", "GetChatHistory returns a private copy", pos, fmt.Sprintf("%d return(s), each of a slice allocated in the function", nret),
+		"GetChatHistory hands out a slice that can share the group's array: the replay on join reads it outside the lock while clearchat and new messages shift entries in place")
 }
